@@ -112,6 +112,10 @@ def skeletons(lang):
         sk["nested-two"] = [func("f0", [S("simple"), inner("g0"), S("simple"), inner("g1"), S("simple")])]
         lvl3 = nested(lang, "g0", [S("simple"), nested(lang, "h0", [S("simple")]), S("simple")])
         sk["nested-3-levels"] = [func("f0", [S("simple"), lvl3, S("simple")])]
+        # a deep nest FOLLOWED by a shallower sibling: after h0 (depth 2) closes, g1 is a child of f0 again, g2 comes after g1's own child
+        sk["nested-3-levels-then-sibling"] = [func("f0", [S("simple"), nested(lang, "g0", [S("simple"), nested(lang, "h0", [S("simple")])]),
+                                                          nested(lang, "g1", [nested(lang, "h1", [S("simple")]), S("simple")]), nested(lang, "g2", [S("simple")]), S("simple")]),
+                                              func("f1", [S("simple")])]
         lvl4 = nested(lang, "g0", [S("simple"), nested(lang, "h0", [nested(lang, "i0", [S("simple")]), S("simple")])])
         sk["nested-4-levels"] = [func("f0", [S("simple"), lvl4]), func("f1", [S("simple")])]
     return {k: {"lang": lang, "items": v} for k, v in sk.items()}
